@@ -258,13 +258,6 @@ example : (allWrites 4 ([(exOn, exOff)].map
 
 /-! ## selection of a pattern -/
 
-/-- a logged pattern: a header row carrying the sequence number, then rows with a blank one -/
-structure Block where
-  hdr : Row
-  body : List Row
-
-def Block.rows (b : Block) : List Row := b.hdr :: b.body
-
 /-- Forward fill and selection: in a log made of patterns whose header rows carry non-decreasing
 sequence numbers (≥ −1) and whose other rows leave the column blank, selecting `sel` keeps exactly
 the rows of the patterns whose number is in `sel`, each labelled with its pattern's number —
@@ -274,68 +267,8 @@ theorem select_pattern (bs : List Block) (sel : List Int)
     (hlow : ∀ b ∈ bs, -1 ≤ b.hdr.seq)
     (hinc : bs.Pairwise (fun a b => a.hdr.seq ≤ b.hdr.seq)) :
     selectRows (some sel) (bs.flatMap Block.rows)
-      = (bs.filter (fun b => sel.contains b.hdr.seq)).flatMap (fun b => b.rows.map (setSeq · b.hdr.seq)) := by
-  have key : ∀ (bs : List Block) (acc : Int), -1 ≤ acc → (∀ b ∈ bs, acc ≤ b.hdr.seq) →
-      (∀ b ∈ bs, ∀ r ∈ b.body, r.seq = -1) → bs.Pairwise (fun a b => a.hdr.seq ≤ b.hdr.seq) →
-      fillRowsAux acc (bs.flatMap Block.rows) = bs.flatMap (fun b => b.rows.map (setSeq · b.hdr.seq)) := by
-    intro bs
-    induction bs with
-    | nil => intros; rfl
-    | cons b rest ih =>
-      intro acc hacc hle hbody hinc
-      rw [List.pairwise_cons] at hinc
-      have hb := hle b (by simp)
-      simp only [List.flatMap_cons, Block.rows]
-      rw [List.cons_append, fillRowsAux]
-      have hm : max acc b.hdr.seq = b.hdr.seq := by omega
-      have hhead : (if b.hdr.seq = -1 then max acc b.hdr.seq else b.hdr.seq) = b.hdr.seq := by
-        split <;> omega
-      rw [hhead, hm, fillRowsAux_append]
-      have hblank := fillRowsAux_blank b.hdr.seq (by omega) b.body (hbody b (by simp))
-      rw [hblank.1, hblank.2]
-      rw [ih b.hdr.seq (by omega) (fun b' hb' => hinc.1 b' hb') (fun b' hb' => hbody b' (by simp [hb'])) hinc.2]
-      simp [Block.rows]
-  have hfill : List.zipWith setSeq (bs.flatMap Block.rows) (fillInts ((bs.flatMap Block.rows).map (·.seq)))
-      = bs.flatMap (fun b => b.rows.map (setSeq · b.hdr.seq)) := by
-    cases bs with
-    | nil => rfl
-    | cons b rest =>
-      rw [List.pairwise_cons] at hinc
-      have h0 := key (b :: rest) b.hdr.seq (hlow b (by simp))
-        (by intro b' hb'; rcases List.mem_cons.mp hb' with h | h
-            · subst h; exact le_refl _
-            · exact hinc.1 b' h)
-        hbody (List.pairwise_cons.mpr hinc)
-      rw [← h0]
-      simp only [List.flatMap_cons, Block.rows, List.cons_append, List.map_cons, fillInts, List.zipWith_cons_cons,
-        fillRowsAux]
-      rw [zipWith_fillAux]
-      congr 1
-      · simp [setSeq]
-      · congr 1; omega
-  unfold selectRows
-  simp only [hfill]
-  clear hfill key
-  induction bs with
-  | nil => rfl
-  | cons b rest ih =>
-    rw [List.pairwise_cons] at hinc
-    simp only [List.flatMap_cons, List.filter_append, List.filter_cons]
-    rw [ih (fun b' hb' => hbody b' (by simp [hb'])) (fun b' hb' => hlow b' (by simp [hb'])) hinc.2]
-    by_cases hc : sel.contains b.hdr.seq = true
-    · rw [if_pos hc, List.flatMap_cons]
-      congr 1
-      rw [List.filter_eq_self]
-      intro r hr
-      obtain ⟨r0, _, rfl⟩ := List.mem_map.mp hr
-      simpa [setSeq] using hc
-    · rw [if_neg hc]
-      have : (b.rows.map (setSeq · b.hdr.seq)).filter (fun r => sel.contains r.seq) = [] := by
-        rw [List.filter_eq_nil_iff]
-        intro r hr
-        obtain ⟨r0, _, rfl⟩ := List.mem_map.mp hr
-        simpa [setSeq] using hc
-      rw [this]; rfl
+      = (bs.filter (fun b => sel.contains b.hdr.seq)).flatMap (fun b => b.rows.map (setSeq · b.hdr.seq)) :=
+  select_blocks bs sel hbody hlow hinc
 
 def exRow (s : Int) : Row := { time := 0, seq := s, x := 0, y := 0, on := false, spot := "1" }
 
